@@ -34,6 +34,7 @@ TRUSTED = ['modelled, not verified: Python re (RE_COMMENT, RE_SECT_HEAD, RE_LINE
 
 F_NULL = 'F-C09-1'      # unparseable values become -999.25 even when the file declares another NULL
 F_WRAP1 = 'F-C09-2'     # wrapped file with a single curve and more than one frame is refused
+F_IDENT = 'F-C09-3'     # a curve whose mnemonic is the number j (another column's index) receives column j's values
 
 
 def _impl():
@@ -176,6 +177,18 @@ def oracle(ctx, LR, content, text, case, res=None):
             ctx.fail(case, f'frame_array[{h["mnem"]!r}] is not channel {ci}'); return False
     if las.number_of_frames() != nfr:
         ctx.fail(case, f'number_of_frames {las.number_of_frames()} != {nfr}'); return False
+    return True
+
+
+def oracle_numeric_mnemonic(ctx, LR, content, text, case):
+    """Curve mnemonic that is the number of another column: only the data values are compared."""
+    from gen import las as G
+    ctx.count('oracle_cases')
+    got, las = impl_parse(LR, text)
+    want = G.expected(content)['array']['frames']
+    if 'err' in got or got['array'] is None or got['array']['frames'] != want:
+        ctx.fail(case, 'data values stored in the wrong channel: ' + (got.get('err') or _diff({'sections': [], 'array': got['array']}, {'sections': [], 'array': dict(got['array'], frames=want)})), finding=F_IDENT)
+        return False
     return True
 
 
@@ -325,6 +338,17 @@ def run(ctx):
         l = G.gen_layout(rng, c)
         oracle(ctx, LR, c, G.print_las(c, l), _case(c, l))
 
+    for _ in range(ctx.n(8, 40)):
+        c = G.gen_content(rng, max_curves=5, bad_rate=0.0, allow_bad_x=False, null=['f', -99925, -2])
+        cur = G.curves_of(c)
+        if len(cur) < 3 or not c['frames']:
+            continue
+        i = rng.randrange(1, len(cur))
+        j = rng.choice([k for k in range(len(cur)) if k != i])
+        cur[i]['mnem'] = str(j)
+        l = G.gen_layout(rng, c)
+        oracle_numeric_mnemonic(ctx, LR, c, G.print_las(c, l), {'op': 'content_numeric', 'content': c, 'layout': l})
+
     # ---- malformed stream (correspondence only)
     bad_texts = structural(rng, G)
     valid = [texts[i] for i in ok]
@@ -399,6 +423,12 @@ def replay(ctx, rec):
         if len(ctx.failures) > n0:
             return False, ctx.failures[-1]['detail']
         return True, 'the reader returns the written content'
+    if case.get('op') == 'content_numeric':
+        n0 = len(ctx.failures)
+        oracle_numeric_mnemonic(ctx, LR, case['content'], G.print_las(case['content'], case['layout']), case)
+        if len(ctx.failures) > n0:
+            return False, ctx.failures[-1]['detail']
+        return True, 'the data values are the ones written'
     if case.get('op') == 'content_text':
         n0 = len(ctx.failures)
         oracle(ctx, LR, case['content'], case['text'], case)
